@@ -183,6 +183,43 @@ def h11c_iter(R, C, mn_r, mx_r, mn_c, mx_c, d_mn_r, d_mx_r, d_mn_c, d_mx_c, by_c
             assert len(g) == 0 or not got
 
 
+class CountingTable(Table):
+    """growth is counted instead of performed (one million add_row calls are not unrolled)"""
+
+    def add_row(self, *a, **k):
+        self.num_rows += 1
+
+    def add_column(self, *a, **k):
+        self.num_cols += 1
+
+
+def h11d_a1(letters, digits, d1, d2, R, C):
+    """every A1 spelling (1-3 letters, up to 8 digits, optional '$'s) names the position its letters and digits say;
+    positions at or after the limits (and row 0) are rejected, the others grow the table by exactly what is needed"""
+    from numbers_parser.xrefs import xl_cell_to_rowcol
+    s = ("$" if d1 else "") + letters + ("$" if d2 else "") + digits
+    want_r = int(digits) - 1
+    want_c = -1
+    for ch in letters:
+        want_c = (want_c + 1) * 26 + (ord(ch) - 65)
+    r, c = xl_cell_to_rowcol(s)
+    assert r == want_r
+    assert c == want_c
+    t = object.__new__(CountingTable)
+    t.num_rows = R
+    t.num_cols = C
+    try:
+        got = t._validate_cell_coords(s, "v")
+    except IndexError:
+        assert want_r < 0 or want_r >= MAX_ROW_COUNT or want_c >= MAX_COL_COUNT
+        assert t.num_rows == R and t.num_cols == C
+        return
+    assert 0 <= want_r < MAX_ROW_COUNT and 0 <= want_c < MAX_COL_COUNT
+    assert got == (want_r, want_c, "v")
+    assert t.num_rows == (want_r + 1 if want_r + 1 > R else R)
+    assert t.num_cols == (want_c + 1 if want_c + 1 > C else C)
+
+
 SHAPES = [1, 2, 3]
 
 
@@ -205,4 +242,25 @@ HARNESSES = [
                  d_mn_r=BoolDom(), d_mx_r=BoolDom(), d_mn_c=BoolDom(), d_mx_c=BoolDom(), by_cols=Cases([False, True])),
             bounds="min/max row/col: every Python int or None (default); shapes {1,3} x {2} (quick) / {1..4} x {1,2,3} (thorough)"),
 ]
+
+
+def _h11d(nl, nd):
+    from pysym.api import StrDom
+    return Harness(f"H11d-l{nl}d{nd}", h11d_a1,
+                   dict(letters=StrDom(nl, [(65, 90)]), digits=StrDom(nd, [(48, 57)]), d1=BoolDom(), d2=BoolDom(),
+                        R=Cases([2] if nd == 1 else [MAX_ROW_COUNT]), C=Cases([MAX_COL_COUNT])),
+                   bounds=f"A1 strings [$]L{{{nl}}}[$]D{{{nd}}}: every upper-case string of {nl} letters, every string of {nd} "
+                          "digits (leading zeros included), both '$' flags; 2 rows for the one-digit forms (rows grow), otherwise "
+                          "a table already at the documented maximum size (growth loops are H11b's subject)",
+                   stubs=["Table.add_row / add_column replaced by counters (growth up to 10^6 rows is counted, not performed)"],
+                   outside=["lower-case spellings", "more than 8 digits"])
+
+
+_BASE = [h.name for h in HARNESSES]
+_ALL_D = [(l, d) for l in (1, 2, 3) for d in range(1, 9)]
+_QUICK_D = [(1, 1), (3, 6), (2, 7), (3, 7)]
+HARNESSES += [_h11d(l, d) for l, d in _ALL_D]
+TIER_HARNESSES = {"quick": _BASE + [f"H11d-l{l}d{d}" for l, d in _QUICK_D]}
+
+
 PROPERTY = "C11"
